@@ -33,7 +33,7 @@ def run(ctx):
     out = ctx.harness(binary, ["-plans", pdir, "-out", ctx.path("seq.ndjson"), "-conc", ctx.path("conc.ndjson"),
                          "-seed", ctx.seed, "-hist", ctx.q(180, 4000), "-nconc", ctx.q(50, 1500),
                          "-nwide", ctx.q(40, 800), "-maxops", ctx.q(80, 200),
-                         "-nrace", ctx.q(100000, 1500000), "-nracekeep", ctx.q(3300, 60000), "-nbulk", ctx.q(150, 3000),
+                         "-nrace", ctx.q(100000, 1500000), "-nracekeep", ctx.q(2900, 60000), "-nbulk", ctx.q(150, 3000),
                          "-long", ctx.path("long.ndjson"), "-longchurn", ctx.q(65540, 131080), "-longtouch", ctx.q(65540, 131080),
                          "-nshape", ctx.q(80, -1)],
                 traces=[ctx.path("seq.ndjson"), ctx.path("conc.ndjson"), ctx.path("long.ndjson")])
